@@ -47,6 +47,12 @@ def steered_callset(rng, samples, smap, project, nrec, multi_ok=True):
     for ri in range(nrec):
         gts = [G.random_gt(rng, rng.choice(["complete", "missing"]), 1) for _ in samples]
         two_alts = multi_ok and rng.random() < 0.3
+        assigned = dict(smap)
+        for i, s_ in enumerate(samples):
+            # columns that are not selected may hold anything, other ploidies included (males on a sex chromosome, ...)
+            if s_ not in assigned and rng.random() < 0.35:
+                a = G.wchoice(rng, [(x, w) for x, w in G.GT_JUNK_PLOIDY if max([y for y in x if y is not None] + [0]) <= (2 if two_alts else 1)])
+                gts[i] = gt(a, rng.random() < 0.5)
         for j, mem in members.items():
             need = (project[j] + 1) // 2
             n = len(mem)
